@@ -239,8 +239,12 @@ func genGBKText(t *rapid.T, maxBytes int, label string) string {
 	var sb strings.Builder
 	used := 0
 	n := rapid.IntRange(0, 12).Draw(t, label+"_n")
+	long := maxBytes >= 200 && rapid.IntRange(0, 3).Draw(t, label+"_long") == 0
+	if long {
+		n = rapid.IntRange(80, 127).Draw(t, label+"_nlong") // up to the field's 255 bytes in GBK; more than that in UTF-8
+	}
 	for i := 0; i < n; i++ {
-		if rapid.IntRange(0, 2).Draw(t, label+"_h") == 0 {
+		if long && rapid.IntRange(0, 9).Draw(t, label+"_hl") != 0 || !long && rapid.IntRange(0, 2).Draw(t, label+"_h") == 0 {
 			if used+2 > maxBytes {
 				break
 			}
@@ -344,7 +348,7 @@ func genParams(t *rapid.T, label string) (model.TerminalParamDetails, int) {
 			copy(a[:], rapid.SliceOfN(rapid.Byte(), 8, 8).Draw(t, label+"_a8"))
 			*p = model.ParamContent[[8]byte]{ID: id, Len: 8, Value: a}
 		case *model.ParamContent[string]:
-			s := genGBKText(t, 40, label+"_str")
+			s := genGBKText(t, rapid.SampledFrom([]int{40, 40, 255}).Draw(t, label+"_strmax"), label+"_str")
 			if s == "" {
 				s = "A"
 			}
